@@ -179,6 +179,9 @@ pub fn catch<T>(f: impl FnOnce() -> T) -> Result<T, String> {
 }
 
 pub fn silence_panics() {
+    if std::env::var_os("HV_PANIC_VERBOSE").is_some() {
+        return;
+    }
     panic::set_hook(Box::new(|_| {}));
 }
 
@@ -369,7 +372,7 @@ fn note_progress(line: &Value) {
     if let Some(Some(path)) = PROGRESS.get() {
         let mut l = line.clone();
         for k in ["bytes", "lbytes", "rbytes"] {
-            if l.get(k).is_some() && arr(&l[k]).len() > 4000 {
+            if l[k].as_array().map_or(false, |a| a.len() > 4000) {
                 l[k] = Value::from("...");
             }
         }
@@ -528,7 +531,7 @@ pub fn guard_case(st: &mut Stats, prop: &str, cmd: &str, line: &Value, f: impl F
         if st.violations.len() == before {
             let mut l = line.clone();
             for k in ["bytes", "lbytes", "rbytes"] {
-                if l.get(k).is_some() && arr(&l[k]).len() > 4000 {
+                if l[k].as_array().map_or(false, |a| a.len() > 4000) {
                     l[k] = Value::from("...");
                 }
             }
